@@ -250,10 +250,105 @@ def rule_defassign(repo, rep):
   rep.floor('fit entry points analysed for definite assignment', n, 17)
 
 
+# ---------------------------------------------------------------- SHAPE
+from ..shape import ShapeDomain, dims_of as _dims_of
+
+
+def rule_shapes(repo, rep):
+  R = 'SHAPE:components-k-by-d'
+  rep.rule(R, 'the value stored as components_ has symbolic shape (k, d): d '
+           'the last dimension of the validated data, k the value returned '
+           'by _check_n_components (or d, or the number of active SCML '
+           'bases); transfer functions for reshape / ravel / .T / dot / eye / '
+           'eigh / eigsh / qr (numpy: reduced, scipy: full by default) / cov '
+           '/ slicing by a rank prefix cover the def-use chain')
+  R5 = 'SHAPE:n_features_in-is-feature-count'
+  rep.rule(R5, 'n_features_in_ is assigned, unconditionally (typestate: '
+           'C17), the last dimension of the validated array for both point '
+           'inputs (n, d) and tuple inputs (n, t, d)')
+  n = 0
+  for c in repo.estimators():
+    f = repo.resolve_method(c, 'fit')
+    dom = ShapeDomain()
+    Engine(repo, dom, self_cls=c).run(f)
+    key = c.name + '.fit'
+    comps = [(d, s, kd) for (a, d, s, kd) in dom.sinks
+             if a == 'components_']
+    if not comps:
+      rep.unknown(R, key, site(f), 'no store of components_ observed')
+      continue
+    n += 1
+    has_k = 'n_components' in repo.init_params(c)
+    seen = set()
+    for (d, s, kd) in comps:
+      dd = _dims_of(d)
+      if (dd, s) in seen:
+        continue
+      seen.add((dd, s))
+      if has_k:
+        # rows = the checked n_components (k); d only where k == d is known
+        rows_ok = dd is not None and len(dd) == 2 and (
+            dd[0] == 'k' or (dd[0] == 'd' and kd))
+      elif c.name.startswith('SCML'):
+        rows_ok = dd is not None and len(dd) == 2 and dd[0] in ('d', '?')
+      else:
+        rows_ok = dd is not None and len(dd) == 2 and dd[0] == 'd'
+      if dd is None:
+        rep.unknown(R, key, s, 'shape of the stored value not derivable')
+      elif rows_ok and dd[1] == 'd':
+        rep.derived(R, key, s, sample=dict(rule=R, estimator=c.name,
+                                           shape=list(map(str, dd)))
+                    if c.name in ('LFDA', 'NCA') else None)
+      else:
+        rep.refuted(R, key, s, 'components_ has shape %s, documented '
+                    '(n_components, n_features)' % (tuple(map(str, dd)),))
+  rep.floor('estimators with a derived components_ shape', n, 17)
+  # n_features_in_: analyse _prepare_inputs under both input kinds
+  g = repo.get_func('base_metric.BaseMetricLearner._prepare_inputs')
+  for toi in ('classic', 'tuples'):
+    for with_y in (False, True):
+      dom = ShapeDomain()
+      orig = dom.summary
+
+      def summ(target, args, kwargs, node, st, orig=orig):
+        if target.name == '_prepare_inputs':
+          return None
+        return orig(target, args, kwargs, node, st)
+      dom.summary = summ
+      from ..engine import V as _VV
+      a = {'type_of_inputs': _VV(None, c=frozenset([toi]), ty='str')}
+      a['y'] = _VV(None, ty='ndarray') if with_y else _VV(None, c=frozenset([None]),
+                                           ty='none')
+      Engine(repo, dom, self_cls=repo.get_class('Covariance')).run(g, args=a)
+      key = 'BaseMetricLearner._prepare_inputs:%s:y=%s' % (toi, with_y)
+      nf = [(d, s) for (at, d, s, kd) in dom.sinks if at == 'n_features_in_']
+      if not nf:
+        rep.refuted(R5, key, site(g), 'n_features_in_ is not assigned')
+      for (d, s) in nf:
+        if d == ('dim', 'd'):
+          rep.derived(R5, key, s)
+        elif isinstance(d, tuple) and d[0] == 'dim':
+          rep.refuted(R5, key, s, 'n_features_in_ is set to the dimension '
+                      '%r of the validated array, not the feature count'
+                      % (d[1],))
+        else:
+          rep.unknown(R5, key, s, 'value of n_features_in_ not derivable')
+
+
 def check(repo, rep, tier):
   api.run_rule(repo, rep)
   rule_return_self_and_components(repo, rep)
   rule_real_components(repo, rep)
   rule_defassign(repo, rep)
+  rule_shapes(repo, rep)
+  # n_features_in_ reflects the LAST fit: typestate rule of C17, restricted
+  from . import c17
+  before = len(rep.obs)
+  c17.rule_history(repo, rep)
+  rep.obs[before:] = [o for o in rep.obs[before:]
+                      if o['status'] == 'derived' or
+                      'n_features_in_' in o['construct']]
+
+
 
 
